@@ -128,6 +128,11 @@ def gen_case(rng):
         p['R'] = [1] + [rng.randint(1, 3) for _ in range(d - 1)] + [1]
     # graded spectrum: singular values spread over many decades so that the eps actually used by the routine matters
     p['graded'] = {'J': rng.randint(3, 8), 'step': rng.choice([0.5, 1.0, 1.5])} if rng.random() < 0.4 else None
+    # badly balanced cores: G_k <- G_k T, G_{k+1} <- T^-1 G_{k+1} on one bond, cond(T) up to 1e8 (value unchanged)
+    p['gauge'] = rng.choice([1e2, 1e4, 1e6, 1e8]) if (p['graded'] is None and rng.random() < 0.3) else None
+    # 'diag': T is diagonal (pure rescaling of the rank index).  QR-based orthogonalisation is invariant under such
+    # scalings, so the result must be accurate to roundoff relative to ||x||, not merely relative to prod ||G_k||
+    p['gauge_kind'] = rng.choice(['rot', 'diag'])
     return p
 
 
@@ -147,8 +152,26 @@ def build(p):
     M = p.get('M')
     if p.get('graded'):
         return TT(gen.graded_cores(p['N'], p['graded']['J'], p['graded']['step'], p['dt'], g, M))
-    x = TT(gen.rand_cores(p['N'], p['R'], p['dt'], g, M))
-    return x
+    cores = gen.rand_cores(p['N'], p['R'], p['dt'], g, M)
+    d = len(cores)
+    if p.get('gauge') and d > 1:
+        from sim.props.c01 import orth
+        k = p['vseed'] % (d - 1)
+        r = cores[k].shape[-1]
+        if r > 1:
+            tdt = gen.DTYPES[p['dt']]
+            u_, v_ = orth(r, p['dt'], g), orth(r, p['dt'], g)
+            sv = torch.logspace(0, math.log10(p['gauge']), r, dtype=torch.float64).to(tdt)
+            if p.get('gauge_kind') == 'diag':
+                hm = math.sqrt(p['gauge'])
+                T = torch.diag(sv / hm)
+                Ti = torch.diag(hm / sv)
+            else:
+                T = u_ @ torch.diag(sv) @ v_
+                Ti = v_.conj().t() @ torch.diag(1.0 / sv) @ u_.conj().t()
+            cores[k] = torch.tensordot(cores[k], T, dims=([cores[k].dim() - 1], [0]))
+            cores[k + 1] = torch.tensordot(Ti, cores[k + 1], dims=([1], [0]))
+    return TT(cores)
 
 
 def expected(p, x):
@@ -218,9 +241,12 @@ def contract(p, x, y, No, Mo, ref):
     rep = 1.0      # magnitude of the representation (see c02): roundoff is relative to prod ||G_k||, not to ||x||
     for c_ in x.cores:
         rep *= gen.fro(c_)
+    if p.get('gauge') and p.get('gauge_kind') == 'diag':
+        rep = nx       # diagonal rescaling of a rank index: roundoff must stay relative to ||x||
     bound = CR[p['routine']] * e * nx + 2000 * u * max(nx, rep) * d
     LAST['ratio'] = err / max(bound, 1e-300)
     LAST['eps_ratio'] = err / max(e * nx, 1e-300) if e >= 1e-11 else None
+    LAST['u_ratio'] = err / max(u * nx * d, 1e-300)
     if not err <= bound:
         # diagnose sign / phase loss
         ip = torch.sum(torch.conj(ref) * full)
@@ -238,7 +264,7 @@ def exec_case(p, res, plans=None, rng=None):
     x = build(p)
     snap = take_snap(x)
     call, No, Mo, ref = expected(p, x)
-    fam = ('graded|' if p.get('graded') else '') + '%s|%s|din%d|dout%d|%s|%s|%s' % (p['routine'], p['dt'], len(p['N']), len(No), 'default' if p['eps'] is None else 'tiny' if p['eps'] < 1e-9 else 'eps',
+    fam = ('graded|' if p.get('graded') else ('gauge_%s|' % p.get('gauge_kind')) if p.get('gauge') else '') + '%s|%s|din%d|dout%d|%s|%s|%s' % (p['routine'], p['dt'], len(p['N']), len(No), 'default' if p['eps'] is None else 'tiny' if p['eps'] < 1e-9 else 'eps',
                                            'in1' if p['N'][-1] == 1 else '', 'out1' if No and No[-1] == 1 else '')
     y0, exc, f0 = svdfault.run_with_plan(call, {})
     core.bump(stats, 'calls')
@@ -256,8 +282,10 @@ def exec_case(p, res, plans=None, rng=None):
     c = contract(p, x, y0, No, Mo, ref)
     if c is not None:
         out.append(core.violation(PROP, 'CONTRACT', p['routine'], c[0], 'fault-free: ' + c[1], desc0))
-    elif LAST.get('eps_ratio') is not None and LAST['eps_ratio'] > 0.5:
+    elif LAST.get('eps_ratio') is not None and LAST['eps_ratio'] > 0.5 and not p.get('gauge'):
         res['near'].append((round(LAST['eps_ratio'], 4), fam))
+    elif p.get('gauge') and p.get('gauge_kind') == 'diag' and p['eps'] is None and LAST.get('u_ratio', 0) > 50:
+        res['near'].append((round(LAST['u_ratio'], 1), 'u_ratio|' + fam))
     if plans is None:
         plans = svdfault.enumerate_plans(rng, n, max_single=10) if rng is not None else []
     for plan in plans:
@@ -326,6 +354,8 @@ def shrink_candidates(desc):
         yield {'case': dict(p, eps=None), 'plan': plan}
     if p.get('graded'):
         yield {'case': dict(p, graded=None), 'plan': plan}
+    if p.get('gauge'):
+        yield {'case': dict(p, gauge=None), 'plan': plan}
     if p['routine'] == 'reshape' and len(p['shape']) > 1:
         sh = p['shape']
         for k in range(len(sh) - 1):
